@@ -18,6 +18,7 @@ import (
 	"bytes"
 	"fmt"
 	"sort"
+	"strconv"
 	"testing"
 	"time"
 
@@ -85,10 +86,9 @@ type mVal struct {
 }
 
 type mSet struct {
-	vals []mVal // sorted by address
-	prop int    // key of the proposer chosen by the last increment; -1 = not defined by the model
-	// (after add/update/remove/reload the real flow always increments before asking)
-	inherited bool // created by Copy and not changed since (its proposer cache is the inherited one)
+	vals      []mVal // sorted by address
+	prop      int    // key of the proposer chosen by the last increment; -1 = none since the set was assembled / changed / reloaded
+	inherited bool   // created by Copy and not changed since (its proposer cache is the inherited one)
 }
 
 func (m *mSet) clone() *mSet {
@@ -124,6 +124,22 @@ func (m *mSet) inc1() {
 	}
 	m.vals[best].accum -= t
 	m.prop = m.vals[best].key
+}
+
+// expected is the proposer the model defines: the one chosen by the last increment, or, when
+// no increment happened since the set was assembled / changed / reloaded, the documented
+// rule of Validator.CompareAccum: most accum, ties to the lowest address.
+func (m *mSet) expected() int {
+	if m.prop >= 0 {
+		return m.prop
+	}
+	best := 0
+	for i := range m.vals {
+		if m.vals[i].accum > m.vals[best].accum {
+			best = i
+		}
+	}
+	return m.vals[best].key
 }
 
 func (m *mSet) add(v mVal) bool {
@@ -578,8 +594,12 @@ func observe(x *h.Ctx, vs *types.ValidatorSet, m *mSet, target bool, lastOp stri
 			return true
 		}
 	} else {
-		if m.prop >= 0 && pk != m.prop {
-			if stop("proposer-differs-from-model", "Proposer() is k%d, model k%d (%s)", pk, m.prop, m) {
+		if want := m.expected(); pk != want {
+			sig := "proposer-differs-from-model"
+			if m.prop < 0 {
+				sig = "uncached-proposer-differs-from-model"
+			}
+			if stop(sig, "Proposer() is k%d, model k%d (%s)", pk, want, m) {
 				return true
 			}
 		}
@@ -593,6 +613,9 @@ func observe(x *h.Ctx, vs *types.ValidatorSet, m *mSet, target bool, lastOp stri
 				return true
 			}
 		}
+	}
+	if !target {
+		return false // untouched by the last operation: hash and lookups were checked when it last changed
 	}
 	// Hash equal for equal content: an independently assembled set with the model's content
 	ref := &types.ValidatorSet{}
@@ -638,7 +661,7 @@ func runHistCase(c HistCase, x *h.Ctx) {
 			break
 		}
 		si := ((o.Set % len(live)) + len(live)) % len(live)
-		where := fmt.Sprintf("op %d %s(set %d)", i, o.Op, si)
+		where := "op " + strconv.Itoa(i) + " " + o.Op + "(set " + strconv.Itoa(si) + ")"
 		key := ((o.Key % poolSize) + poolSize) % poolSize
 		power := o.Power
 		if power < 1 {
@@ -852,12 +875,13 @@ func runHistCase(c HistCase, x *h.Ctx) {
 
 func observeAll(x *h.Ctx, live, repl []*types.ValidatorSet, model []*mSet, target int, lastOp, where string) bool {
 	for j := range live {
-		w := fmt.Sprintf("%s, live set %d", where, j)
-		if observe(x, live[j], model[j], j == target || target < 0, lastOp, w) {
+		w := where + ", live set " + string(rune('0'+j))
+		isTarget := j == target || target < 0
+		if observe(x, live[j], model[j], isTarget, lastOp, w) {
 			return true
 		}
 		// (v) the copy-on-write replica agrees on everything observable
-		if !sameContent(live[j], repl[j]) || !bytes.Equal(live[j].Hash(), repl[j].Hash()) || !bytes.Equal(propAddr(live[j]), propAddr(repl[j])) {
+		if !sameContent(live[j], repl[j]) || (isTarget && !bytes.Equal(live[j].Hash(), repl[j].Hash())) || !bytes.Equal(propAddr(live[j]), propAddr(repl[j])) {
 			if x.Fail("replicas-differ", "%s: in-place replica %s proposer k%d, copy-on-write replica %s proposer k%d", w,
 				dumpSet(live[j]), keyOf(propAddr(live[j])), dumpSet(repl[j]), keyOf(propAddr(repl[j]))) {
 				return true
